@@ -55,6 +55,11 @@ let handle w =
   | ["pn53x"; d; c; payload] -> show_out (pn53x_status_outcome (dir_of d) (cmd_of c) (bytes_of_hex payload))
   | ["readreg"; d; ws; n; payload] -> show_out (pn53x_readreg_outcome (dir_of d) (ws = "1") (zi n) (bytes_of_hex payload))
   | ["rcs380p"; d; payload] -> show_out (rcs380_payload_outcome (dir_of d) (bytes_of_hex payload))
+  | ["tt3poll"; c; dv; lvl; fifo] ->
+      (match tt3_poll (zi c) (zi dv) (zi lvl) (bytes_of_hex fifo) with PollAgain -> "again" | PollOut o -> show_out o)
+  | ["tt1fifo"; lvl] ->
+      let a = show_out (tt1_fifo_outcome (zi lvl) true) and b = show_out (tt1_fifo_outcome (zi lvl) false) in
+      if a = b then a else "crc " ^ a ^ " | " ^ b
   | ["errframe"; d] -> show_out (pn53x_errframe_outcome (dir_of d))
   | ["ioerr"; d; n] -> show_out (ORaise (pn53x_ioerror_map (dir_of d) (zi n)))
   | ["rcs380w"; d; n] -> show_out (rcs380_status_outcome (dir_of d) (zi n))
